@@ -174,6 +174,17 @@ def att(datasets, ref):
 
 
 def make_roi(rs):
+    if rs.get('boundary'):
+        try:
+            return _make_roi(rs)
+        except NoRecipe:
+            raise
+        except Exception as e:
+            raise NoRecipe('the constructor rejects %r: %s: %s' % (rs, type(e).__name__, e))
+    return _make_roi(rs)
+
+
+def _make_roi(rs):
     from glue.core import roi as R
     c = rs['cls']
     if c == 'RectangularROI':
@@ -197,7 +208,7 @@ def make_roi(rs):
     if c == 'CategoricalROI':
         return R.CategoricalROI(list(rs['categories']))
     if c == 'Projected3dROI':
-        return R.Projected3dROI(roi_2d=make_roi(rs['roi2d']), projection_matrix=np.array(rs['matrix'], dtype=float))
+        return R.Projected3dROI(roi_2d=_make_roi(rs['roi2d']), projection_matrix=np.array(rs['matrix'], dtype=float))
     if c == 'Roi':
         return R.Roi()
     # a class found by introspection that the harness has no recipe for: try the zero-argument constructor
@@ -447,8 +458,7 @@ def realise(spec, scratch):
                 import dask.array as da
                 from glue.core.component import DaskComponent
                 d.add_component(DaskComponent(da.from_array(values_for('float', c['seed'], shape), chunks=2)), c['name'])
-        for c in ds['comps']:
-            k = c['kind']
+            # derived components are added where the spec lists them, i.e. possibly before stored ones
             idx = len(datasets) - 1
             if k == 'arith':
                 d.add_component(arith(datasets, idx, c['expr']), c['name'])
@@ -461,6 +471,18 @@ def realise(spec, scratch):
                 from glue.core.component_id import ComponentID
                 pc = ParsedCommand(c['cmd'], {kk: att(datasets, (idx, v)) for kk, v in c['refs'].items()})
                 d.add_component_link(ParsedComponentLink(ComponentID(c['name'], parent=d), pc))
+        if ds.get('reorder'):
+            coord = list(d.coordinate_components)
+            rest = [c for c in d.components if not any(c is x for x in coord)]
+            if ds['reorder'] == 'reverse':
+                new_order = coord + rest[::-1]
+            elif ds['reorder'] == 'rotate':
+                new_order = coord + rest[1:] + rest[:1]
+            elif ds['reorder'] == 'coords_last':
+                new_order = rest + coord
+            else:
+                new_order = rest[::-1] + coord[::-1]
+            d.reorder_components(new_order)
         apply_style(d.style, ds.get('style'))
         for k, v in (ds.get('meta') or {}).items():
             d.meta[k] = v
@@ -597,9 +619,46 @@ def read(d, cid):
         return 'EXC:' + type(e).__name__
 
 
+GRID = np.meshgrid(np.arange(-1.25, 10, 0.75), np.arange(-1.25, 10, 0.75))
+
+
+def roi_obs(roi):
+    """a region by its class, its instance attributes and the points of a fixed grid it contains"""
+    o = {'class': type(roi).__name__}
+    for k, v in sorted(vars(roi).items()):
+        if k.startswith('__'):
+            continue
+        if hasattr(v, 'contains'):
+            o[k] = roi_obs(v)
+        else:
+            o[k] = canon(np.asarray(v)) if isinstance(v, (np.ndarray, list, tuple)) else canon(v)
+    try:
+        o['grid'] = canon(np.asarray(roi.contains(GRID[0], GRID[1])).astype(int)) if not hasattr(roi, 'contains3d') else None
+    except Exception as e:
+        o['grid'] = 'EXC:' + type(e).__name__
+    return o
+
+
+def state_rois(st, depth=0):
+    """every region inside a (composite) subset state, in structural order"""
+    out = []
+    if depth > 6 or st is None:
+        return out
+    for nm in ('roi', '_roi'):
+        r = getattr(st, nm, None)
+        if r is not None and hasattr(r, 'contains'):
+            out.append(roi_obs(r))
+            break
+    for nm in ('state1', 'state2'):
+        out += state_rois(getattr(st, nm, None), depth + 1)
+    for sub in getattr(st, 'states', None) or []:
+        out += state_rois(sub, depth + 1)
+    return out
+
+
 def observe(dc, aspects=None):
     """canonical, JSON-able description of everything the property lists; `aspects` restricts it (C12: what an old format recorded)"""
-    A = aspects or {'labels', 'components', 'values', 'linked', 'masks', 'styles', 'meta', 'joins', 'groups', 'coords', 'uuid', 'sg_count'}
+    A = aspects or {'labels', 'components', 'values', 'linked', 'links', 'masks', 'styles', 'meta', 'joins', 'groups', 'coords', 'uuid', 'sg_count'}
     obs = {'n_data': len(dc), 'data': []}
     datasets = list(dc)
     for d in datasets:
@@ -652,6 +711,20 @@ def observe(dc, aspects=None):
                 for k, cid in enumerate(dj.components):
                     linked['%d<-%d:%d(%s)' % (i, j, k, cid.label)] = read(di, cid)
         obs['linked'] = linked
+    if 'links' in A:
+        # the links between datasets held by the collection, as (input labels with their dataset, output label with its dataset)
+        def lab(c):
+            return '%s.%s' % (getattr(c.parent, 'label', None), c.label)
+        ext = []
+        for l in dc.external_links:
+            subs = list(l) if hasattr(l, '__iter__') and not hasattr(l, 'get_from_ids') else [l]
+            if not subs:
+                ext.append([type(l).__name__])
+            for sl in subs:
+                ext.append([[lab(c) for c in sl.get_from_ids()], lab(sl.get_to_id())])
+        obs['external_links'] = sorted(ext, key=lambda x: json.dumps(x))
+    if 'masks' in A:
+        obs['rois'] = [state_rois(g.subset_state) for g in dc.subset_groups]
     if 'groups' in A:
         obs['groups'] = [g.label for g in dc.subset_groups]
         obs['group_sizes'] = [len(g.subsets) for g in dc.subset_groups]
@@ -842,6 +915,33 @@ ROI_SPECS = {
     'PointROI': [{'cls': 'PointROI', 'x': 2, 'y': 3}],
     'Roi': [{'cls': 'Roi'}],
 }
+def _b(**kw):
+    kw['boundary'] = True
+    return kw
+
+
+# boundary / degenerate parameter values, built through the public constructors
+ROI_BOUNDARY = {
+    'RectangularROI': [_b(cls='RectangularROI', xmin=6, xmax=1, ymin=2, ymax=7), _b(cls='RectangularROI', xmin=1, xmax=6, ymin=7, ymax=2),
+                       _b(cls='RectangularROI', xmin=6, xmax=1, ymin=7, ymax=2), _b(cls='RectangularROI', xmin=3, xmax=3, ymin=2, ymax=7),
+                       _b(cls='RectangularROI', xmin=3, xmax=3, ymin=4, ymax=4), _b(cls='RectangularROI', xmin=1, xmax=6, ymin=2, ymax=7, theta=-0.5),
+                       _b(cls='RectangularROI', xmin=1, xmax=6, ymin=2, ymax=7, theta=7.0), _b(cls='RectangularROI', xmin=6, xmax=1, ymin=2, ymax=7, theta=0.5),
+                       _b(cls='RectangularROI', xmin=1, xmax=6, ymin=2, ymax=7, theta=0)],
+    'RangeROI': [_b(cls='RangeROI', orientation='x', min=5, max=2), _b(cls='RangeROI', orientation='y', min=3, max=3), _b(cls='RangeROI', orientation='x', min=-1, max=0)],
+    'XRangeROI': [_b(cls='XRangeROI', min=4, max=1), _b(cls='XRangeROI', min=2, max=2)],
+    'YRangeROI': [_b(cls='YRangeROI', min=8, max=3), _b(cls='YRangeROI', min=0, max=0)],
+    'CircularROI': [_b(cls='CircularROI', xc=4, yc=4, radius=0), _b(cls='CircularROI', xc=4, yc=4, radius=-3), _b(cls='CircularROI', xc=0, yc=0, radius=100)],
+    'CircularAnnulusROI': [_b(cls='CircularAnnulusROI', xc=4, yc=4, inner=4, outer=1.5), _b(cls='CircularAnnulusROI', xc=4, yc=4, inner=3, outer=3),
+                           _b(cls='CircularAnnulusROI', xc=4, yc=4, inner=0, outer=4), _b(cls='CircularAnnulusROI', xc=4, yc=4, inner=0, outer=0)],
+    'EllipticalROI': [_b(cls='EllipticalROI', xc=4, yc=4, rx=0, ry=2), _b(cls='EllipticalROI', xc=4, yc=4, rx=3, ry=0), _b(cls='EllipticalROI', xc=4, yc=4, rx=-3, ry=2),
+                      _b(cls='EllipticalROI', xc=4, yc=4, rx=3, ry=2, theta=-1.0), _b(cls='EllipticalROI', xc=4, yc=4, rx=3, ry=2, theta=9.0), _b(cls='EllipticalROI', xc=4, yc=4, rx=3, ry=2, theta=0)],
+    'PolygonalROI': [_b(cls='PolygonalROI', vx=[], vy=[]), _b(cls='PolygonalROI', vx=[3], vy=[3]), _b(cls='PolygonalROI', vx=[0, 6], vy=[0, 7]),
+                     _b(cls='PolygonalROI', vx=[0, 6, 6, 0, 0], vy=[0, 0, 7, 7, 0]), _b(cls='PolygonalROI', vx=[0, 6, 0, 6], vy=[0, 7, 7, 0])],
+    'Path': [_b(cls='Path', vx=[], vy=[]), _b(cls='Path', vx=[3], vy=[3]), _b(cls='Path', vx=[0, 6], vy=[0, 7])],
+    'CategoricalROI': [],
+}
+
+
 PROJ = [[1, 0, 0, 0], [0, 1, 0, 0], [0, 0, 1, 0], [0, 0, 0, 1]]
 PROJ2 = [[1, 0.5, 0, 0], [0, 1, 0.25, 1], [0, 0, 1, 0], [0, 0, 0, 2]]
 
@@ -1039,6 +1139,8 @@ def catalogue(tables):
     for extra in ([{'kind': 'ComponentLink', 'a': [0, 'x'], 'b': [1, 'y'], 'f': 'double', 'g': 'halve'}],
                   [{'kind': 'ComponentLink', 'a': [0, 'x'], 'b': [1, 'y'], 'f': 'plus_one'}],
                   [{'kind': 'ComponentLink2', 'a': [0, 'x'], 'a2': [0, 'y'], 'b': [1, 'x']}],
+                  [{'kind': 'LinkSame', 'a': [0, 'y'], 'b': [1, 'y']}, {'kind': 'ComponentLink2', 'a': [1, 'y'], 'a2': [0, 'x'], 'b': [1, 'x']}],
+                  [{'kind': 'LinkSame', 'a': [0, 'y'], 'b': [1, 'y']}, {'kind': 'ComponentLink2', 'a': [0, 'x'], 'a2': [1, 'y'], 'b': [1, 'z']}],
                   [{'kind': 'IdentityLink', 'a': [0, 'x'], 'b': [1, 'y']}],
                   [{'kind': 'PartialResultLink', 'a': [0, 'x'], 'b': [1, 'y']}],
                   [{'kind': 'FunctionalLinkCollection', 'a': [0, 'x'], 'b': [1, 'y']}],
@@ -1082,6 +1184,38 @@ def catalogue(tables):
                   'links': [], 'subsets': [{'label': 's', 'state': {'cls': 'RangeSubsetState', 'd': 0, 'att': 'x', 'lo': 2, 'hi': 6}},
                                            {'label': 'w', 'state': {'cls': 'RangeSubsetState', 'd': 0, 'att': 'world0' if coords else 'pix0', 'lo': 0, 'hi': 12}}]}
             cases.append(('coords:%s:%dd' % (coords, len(shape)), sp))
+    # every Roi class with boundary / degenerate parameters, alone and inside composite states
+    inner = {'cls': 'RangeSubsetState', 'd': 0, 'att': 'x', 'lo': 0, 'hi': 8}
+    for cname, rss in ROI_BOUNDARY.items():
+        for k, rs in enumerate(rss):
+            st = {'cls': 'RoiSubsetState', 'd': 0, 'x': 'x', 'y': 'y', 'roi': rs}
+            sp = base_spec()
+            sp['subsets'] = [{'label': 'alone', 'state': st}, {'label': 'and', 'state': {'cls': 'AndState', 'a': inner, 'b': st}},
+                             {'label': 'not', 'state': {'cls': 'InvertState', 'a': st}},
+                             {'label': 'multi', 'state': {'cls': 'MultiOrState', 'states': [st, {'cls': 'RangeSubsetState', 'd': 0, 'att': 'y', 'lo': 7, 'hi': 8}]}},
+                             {'label': 'nd', 'state': {'cls': 'RoiSubsetStateNd', 'd': 0, 'atts': ['x', 'y'], 'roi': rs}}]
+            cases.append(('roi-boundary:%s:%d' % (cname, k), sp))
+    cases.append(('roi-boundary:CategoricalROI', dict(base_spec(), subsets=[
+        {'label': 'none', 'state': {'cls': 'CategoricalROISubsetState', 'd': 0, 'att': 'c', 'categories': []}},
+        {'label': 'unknown', 'state': {'cls': 'CategoricalROISubsetState', 'd': 0, 'att': 'c', 'categories': ['zz']}},
+        {'label': 'all', 'state': {'cls': 'CategoricalROISubsetState', 'd': 0, 'att': 'c', 'categories': ['a', 'b', 'c', 'dd']}}])))
+    cases.append(('roi-boundary:Projected3dROI', dict(base_spec(), subsets=[
+        {'label': 'p', 'state': {'cls': 'RoiSubsetState3d', 'd': 0, 'x': 'x', 'y': 'y', 'z': 'z',
+                                 'roi': {'cls': 'Projected3dROI', 'roi2d': ROI_BOUNDARY['RectangularROI'][0], 'matrix': PROJ}}}])))
+    # component order: derived components before stored ones, reordered datasets (the label sequence is compared as a sequence)
+    der = [{'name': 'twice', 'kind': 'arith', 'expr': ['mul', 'x', 2]}, {'name': 'fx', 'kind': 'func', 'from': ['x'], 'fn': 'double'},
+           {'name': 'px', 'kind': 'parsed', 'cmd': '{a} + 1', 'refs': {'a': 'x'}}]
+    for k, dcomp in enumerate(der):
+        for reorder in (None, 'reverse', 'rotate', 'coords_last', 'all_reversed'):
+            for shape in ((6,), (2, 3)):
+                comps = [{'name': 'x', 'kind': 'float', 'seed': 3}, dict(dcomp), {'name': 'y', 'kind': 'float', 'seed': 4},
+                         dict(der[(k + 1) % 3]), {'name': 'c', 'kind': 'cat', 'seed': 5}, {'name': 'z', 'kind': 'int', 'seed': 6}]
+                ds = {'label': 'ord', 'shape': list(shape), 'comps': comps, 'reorder': reorder, 'coords': 'identity' if len(shape) == 2 else None}
+                sp = {'include_data': True, 'datasets': [ds, table_ds('t2', 6, 71)], 'links': [], 'subsets': [
+                    {'label': 's', 'state': {'cls': 'InequalitySubsetState', 'd': 0, 'left': dcomp['name'], 'right': 5, 'op': 'gt'}}]}
+                if len(shape) == 1:
+                    sp['links'] = [{'kind': 'LinkSame', 'a': [0, 'x'], 'b': [1, 'x']}]
+                cases.append(('order:%s:%s:%dd' % (dcomp['kind'], reorder, len(shape)), sp))
     # functions by reference: plain module-level functions, names re-defined after use, closures shadowing a module-level name
     for mode in ('plain', 'rebound', 'closure'):
         for use in ('derived', 'link', 'twoway', 'pretransform'):
@@ -1160,8 +1294,10 @@ def random_spec(rng, tables):
                 ds['coords'] = rng.choice([None, 'identity', 'affine'])
                 ds['affine_units'] = rng.random() < 0.5
                 ds['affine_labels'] = rng.random() < 0.5
+        if rng.random() < 0.3 and not ds.get('file'):
+            ds['reorder'] = rng.choice(['reverse', 'rotate', 'coords_last', 'all_reversed'])
         if rng.random() < 0.6:
-            ds['comps'].append(rng.choice([
+            ds['comps'].insert(rng.choice([len(ds['comps']), 2, min(3, len(ds['comps']))]) if not ds.get('file') else len(ds['comps']), rng.choice([
                 {'name': 'q', 'kind': 'arith', 'expr': ['mul', 'x', 2]},
                 {'name': 'q', 'kind': 'arith', 'expr': ['sub', 'x', ['add', 'y', 1]]},
                 {'name': 'q', 'kind': 'func', 'from': ['x'], 'fn': 'plus_one'},
@@ -1217,7 +1353,8 @@ def random_spec(rng, tables):
         if c == 'RoiSubsetState':
             rname = rng.choice([k for k in ROI_SPECS if k not in ('PointROI', 'Roi', 'VertexROIBase')])
             x, y = ('x', 'y') if is_table or rng.random() < 0.5 else ('pix1', 'pix0')
-            st = {'cls': c, 'd': d, 'x': x, 'y': y, 'roi': rng.choice(ROI_SPECS[rname])}
+            pool = ROI_BOUNDARY[rname] if (rng.random() < 0.3 and ROI_BOUNDARY.get(rname)) else ROI_SPECS[rname]
+            st = {'cls': c, 'd': d, 'x': x, 'y': y, 'roi': rng.choice(pool)}
             if rng.random() < 0.15:
                 st['pre'] = rng.choice(['radian', 'fullsphere'])
             return st
